@@ -35,7 +35,7 @@ SHRINK = {'C03': (60, 25), 'C02': (60, 40)}
 WALL_LIMIT = {('C03', 'quick'): 240, ('C03', 'thorough'): 3000, ('C02', 'quick'): 240, ('C02', 'thorough'): 240}      # one re-execution = ~20 forked crawls
 PROBES = {'C03': ['kill_points_total', 'kill_at_sql', 'kill_at_commit', 'kill_at_request', 'kill_at_delivery', 'kill_before_first_request',
                   'kill_with_in_progress_rows', 'kill_between_status_and_children', 'second_kill', 'resumed_runs', 'concurrency>1',
-                  'workload_fully_enumerated', 'run2_refetch_of_in_progress', 'database_uri', 'sitemaps', 'sitemaps_skipped_start', 'ftp_crawl', 'transient_errors', 'kill_with_error_rows', 'many_input_urls', 'kill_during_input_import', 'small_tries']}
+                  'workload_fully_enumerated', 'run2_refetch_of_in_progress', 'database_uri', 'sitemaps', 'sitemaps_skipped_start', 'ftp_crawl', 'transient_errors', 'kill_with_error_rows', 'many_input_urls', 'kill_during_input_import', 'small_tries', 'depth_limited']}
 INFO = {'C03': {
     'rule': 'workload = generated site graph (as C01, depth unlimited) x concurrency 1..3 x schedule; per workload the kill instants '
             '(every SQL statement boundary, every commit boundary, every server request, every delivered segment) are enumerated '
@@ -213,6 +213,13 @@ def run(tape, prop, tier):
             nhosts = tape.choice((1, 2), 'site.nhosts')
             site, starts, pages, assets, redirects = refsite.gen_site(tape, nhosts=nhosts, npages=tape.between(3, 7, 'site.npages'),
                                                                      with_redirects=tape.chance(1, 3, 'site.redirects'))
+        level_limited = False
+        if prop == 'C03' and not ftp and tape.chance(1, 5, 'opt.level'):
+            # a depth limit: after a resume the URLs must be found at the same depths as in an uninterrupted crawl (one
+            # worker: with several, the depth a URL is first found at depends on the schedule anyway, C01-K2)
+            opts['level'] = tape.choice((1, 2, 3), 'opt.level.n')
+            level_limited = True
+            r.probes['depth_limited'] += 1
         site.flaky = []
         if prop == 'C03' and tape.chance(1, 4, 'opt.tries'):
             # a small --tries: a try that was started but never finished (the process died) must not be counted
@@ -273,6 +280,8 @@ def run(tape, prop, tier):
             argv_urls = [s.url for s in starts]
         site.finalize()
         concurrency = tape.choice((1, 2, 3), 'concurrency')
+        if level_limited:
+            concurrency = 1
         if concurrency > 1:
             r.probes['concurrency>1'] += 1
         sched_seed = tape.draw(1 << 20, 'sched.seed')
